@@ -364,6 +364,22 @@ pub fn run(ctx: &mut crate::Ctx) {
             pair!("window.order_by", wsel({ let mut w = w0(); w.order_by(id(&a.a), Order::Desc); w }), wsel({ let mut w = w0(); w.order_by_expr(Expr::col(id(&a.a)).into(), Order::Desc); w }));
             pair!("window.clear_order_by", wsel({ let mut w = w0(); w.order_by(id(&a.a), Order::Desc).clear_order_by().order_by(id(&a.b), Order::Asc); w }), wsel({ let mut w = w0(); w.order_by(id(&a.b), Order::Asc); w }));
         }
+        // ---- set operations accumulate in call order, whichever method adds them
+        {
+            let m = |k: u64| { let mut s = Query::select(); s.column(id(&a.b)).from(id(&a.u)).and_where(Expr::col(id(&a.b)).eq(k as i32)); s };
+            let general = || { let mut s = sel(&a); s.union(UnionType::Except, m(1)).union(UnionType::All, m(2)).union(UnionType::Intersect, m(3)); s };
+            pair!("select.unions", { let mut s = sel(&a); s.unions([(UnionType::Except, m(1)), (UnionType::All, m(2)), (UnionType::Intersect, m(3))]); s }, general());
+            pair!("select.union then unions", { let mut s = sel(&a); s.union(UnionType::Except, m(1)).unions([(UnionType::All, m(2)), (UnionType::Intersect, m(3))]); s }, general());
+            pair!("select.unions twice", { let mut s = sel(&a); s.unions([(UnionType::Except, m(1))]).unions([(UnionType::All, m(2)), (UnionType::Intersect, m(3))]); s }, general());
+            pair!("select.unions then union", { let mut s = sel(&a); s.unions([(UnionType::Except, m(1)), (UnionType::All, m(2))]).union(UnionType::Intersect, m(3)); s }, general());
+        }
+        // ---- the default-row request: the last call decides how many rows, zero rows are zero rows
+        {
+            let base = || { let mut i = Query::insert(); i.into_table(id(&a.t)); i };
+            pair!("insert.or_default_values after or_default_values_many", { let mut i = base(); i.or_default_values_many(3).or_default_values(); i }, { let mut i = base(); i.or_default_values(); i });
+            pair!("insert.or_default_values_many after or_default_values", { let mut i = base(); i.or_default_values().or_default_values_many(3); i }, { let mut i = base(); i.or_default_values_many(3); i });
+            pair!("insert.or_default_values_many(1)", { let mut i = base(); i.or_default_values_many(1); i }, { let mut i = base(); i.or_default_values(); i });
+        }
         // ---- rows accumulate whichever of the row-adding methods is called, in any mix
         {
             let base = || { let mut i = Query::insert(); i.into_table(id(&a.t)).columns([id(&a.a), id(&a.b)]); i };
